@@ -85,3 +85,15 @@ def deprecation_alias(f: Callable, deprecated_name: str) -> Callable:
         return f(*args, **kwargs)
 
     return inner
+
+
+def real_edges(edges):
+    """Bin edges as floating-point numbers.
+
+    Arithmetic with integer edges (time stamps in an int32 array, a list of python ints)
+    would be done in their own type and may wrap around.
+    """
+    import numpy as np
+
+    edges = np.asarray(edges)
+    return edges.astype(float) if edges.dtype.kind in "iu" else edges
